@@ -195,6 +195,7 @@ def run(cx):
     cx.consulted(pm)
     cx.explanation = (
         "the inference function is evaluated as a decision procedure over the finite lattice of type labels (bool<int<float, String) for every expression form and compared with Python's typing; join functions over all label subsets; label->C++ mapping; declared types (globals, locals, hoisted declarations, parameters, return types per call-site specialisation) and re-declaration are decided on a script corpus parsed by partial evaluation, with CPython under sys.settrace as typing oracle; accessor translations typed by clang. Per-program inference for arbitrary scripts is not decided."
+        " Since round 10 whole scripts are also taken through parse() and emit() (partial evaluation), the emitted translation unit is parsed by clang and interpreted by the checker's C evaluator on a scripted board (never compiled to code or run); typed stores (an int variable truncates) make a too narrow temporary, local, parameter or return type visible as a wrong printed value on the c02 corpus scripts."
     )
     it = lambda: dl.Interp(pm)
     inf = pm.func("_infer_expr_type")
